@@ -102,6 +102,7 @@ class PathCtx:
             return
         self.pc.append(f)
         self.assumptions.append((origin, f))
+        self.ex.origins.add(origin.split("[")[0])
         if z3.is_false(f):
             if not origin.startswith("callee-raises-cond"):
                 self.ex.false_assumes.append((origin, self.cur_line))
@@ -197,6 +198,7 @@ class Explorer:
         self.paths = 0
         self.terminals = []  # (decisions, pc, outcome)
         self.false_assumes = []  # assumptions that evaluated to the constant False (contract bug?)
+        self.origins = set()     # where every assumption put on a path condition came from (assumption scan)
 
     def explore(self, run_one):
         """run_one(ctx) executes one path, returns an outcome tag (or raises PathEnd)."""
